@@ -2,6 +2,7 @@ import Operon.Lemmas.C12
 import Operon.Lemmas.C12Str
 import Operon.Lemmas.C12Scan
 import Operon.Lemmas.C12Reg
+import Operon.Gen.RibosomeRegistry
 /-!
 # C12 — template rendering follows the documented grammar; bound values stay data
 
@@ -618,6 +619,17 @@ theorem c12_registration_key (ts : List (Str × Str)) :
   · intro k own s; rfl
   · intro n s h; simp [RegOp.key, h]
   · intro s; exact ⟨rfl, rfl⟩
+
+/-- MODEL = CODE on the registration key.  `Operon.Gen.RibosomeRegistry.regKeyRows` is regenerated on every run by
+    EVALUATING the tree under test: every way of registering (`register_template`, `create_template`, the constructor's
+    mapping) × the `name=` argument given / empty / absent × the mRNA's own name given / empty, on an empty registry and
+    on one that already holds both candidate keys; each row records the key under which the real code stored the
+    template (`none`: `ValueError`, registry unchanged).  The model's `RegOp.key` agrees on every row — the domain is
+    complete for what `name or template.name` can distinguish (a string is falsy iff it is empty). -/
+theorem c12_registration_key_matches_code :
+    Operon.Gen.RibosomeRegistry.regKeyRows.length = 19 ∧
+    ∀ r ∈ Operon.Gen.RibosomeRegistry.regKeyRows, r.1.key = r.2 := by
+  decide
 
 /-- NO MEMORY.  A render reads the registry only by looking names up: two registries that resolve every name to the
     same sequence (however they came about — different histories, different slot order, other instances) give the
